@@ -4,6 +4,7 @@ import (
 	"context"
 	"errors"
 	"fmt"
+	"github.com/sdcio/data-server/pkg/verifhook"
 	"sync"
 
 	log "github.com/sirupsen/logrus"
@@ -27,6 +28,7 @@ func NewTransactionManager(r RollbackInterface) *TransactionManager {
 }
 
 func (t *TransactionManager) RegisterTransaction(ctx context.Context, trans *Transaction) (*TransactionGuard, error) {
+	verifhook.Yield("set.register", trans.transactionId)
 	t.tmMutex.Lock()
 	defer t.tmMutex.Unlock()
 	if t.transactionOngoing() {
@@ -58,6 +60,7 @@ func (t *TransactionManager) CleanupTransaction(id string) error {
 }
 
 func (t *TransactionManager) Confirm(id string) error {
+	verifhook.Yield("confirm.lock", id)
 	t.tmMutex.Lock()
 	defer t.tmMutex.Unlock()
 	if t.transaction == nil {
@@ -75,6 +78,7 @@ func (t *TransactionManager) Confirm(id string) error {
 }
 
 func (t *TransactionManager) Cancel(ctx context.Context, id string) error {
+	verifhook.Yield("cancel.lock", id)
 	t.tmMutex.Lock()
 	defer t.tmMutex.Unlock()
 	if t.transaction == nil {
@@ -104,6 +108,7 @@ func (t *TransactionManager) GetTransaction(id string) (*Transaction, error) {
 }
 
 func (t *TransactionManager) Rollback(ctx context.Context, trans *Transaction) error {
+	verifhook.Yield("timer.lock", trans.transactionId)
 	t.tmMutex.Lock()
 	defer t.tmMutex.Unlock()
 	_, err := t.rollbacker.TransactionRollback(ctx, trans, false)
